@@ -499,6 +499,7 @@ func tpEncTable() []*tpPattern {
 		// kindMessage
 		{src: `c.Message(_N, m._F.Encode)`, mk: tpFixed("emsgptr")},
 		{src: `c.PresentMessage(_N, m._F.Encode)`, mk: tpFixed("emsgpresent")},
+		{src: `c.AlwaysMessage(_N, m._F.Encode)`, mk: tpFixed("emsgalwaysval")}, // by-value member of a oneof
 		{src: `for _, x := range m._F { c.AlwaysMessage(_N, x.Encode) }`, mk: tpFixed("emsgrepptr")},
 		{src: `for i := range m._F { x := &m._F[i]; c.AlwaysMessage(_N, x.Encode) }`, mk: tpFixed("emsgrepval")},
 		// kindCast
